@@ -193,6 +193,145 @@ func signature(o caseOut) string {
 	return strings.Join(bits, "+")
 }
 
+// ---- family "multi": the subscription side of C43 across fallback and revert ----
+
+// multiPrelude drives 2-3 servers through fallback / revert situations in which
+// the last watch of a resource is cancelled while another server is active.
+func multiPrelude(i int, s *x.Sim, g *x.Gen) []step {
+	var st []step
+	add := func(note string, f func()) { st = append(st, step{note, f}) }
+	resp := func(srv int, typ, kind string) func() {
+		return func() { s.W.Server(srv).Respond(g.MakeResponse(srv, typ, kind)) }
+	}
+	fail := func(srv int, v bool) func() { return func() { s.W.Server(srv).SetStreamFail(v) } }
+	a := s.NewWatcher(x.TypeURLA, "r0", false)
+	b := s.NewWatcher(x.TypeURLA, "r1", false)
+	c := s.NewWatcher(x.TypeURLA, "r2", false)
+	switch i % 4 {
+	case 0: // received from the primary; primary down; fallback; last unwatch during fallback; primary back
+		add("watch r0", func() { a.Start(s.C) })
+		add("watch r1", func() { b.Start(s.C) })
+		add("srv0 answers", resp(0, x.TypeURLA, "valid"))
+		add("srv0 streams fail", fail(0, true))
+		add("srv0 breaks", func() { s.W.Server(0).Break() })
+		add("watch r2 (uncached: fallback on the next failure)", func() { c.Start(s.C) })
+		st = append(st, sleepStep(s, 5*time.Second))
+		add("cancel r0 while the fallback server is active", func() { a.Stop() })
+		add("srv0 recovers", fail(0, false))
+		st = append(st, sleepStep(s, 150*time.Second))
+		add("srv0 answers", resp(0, x.TypeURLA, "valid"))
+	case 1: // fallback at start-up, unwatch one of two during fallback, primary comes back silently, then answers
+		add("srv0 streams fail", fail(0, true))
+		add("watch r0", func() { a.Start(s.C) })
+		add("watch r1", func() { b.Start(s.C) })
+		add("srv1 answers", resp(1, x.TypeURLA, "valid"))
+		add("cancel r1 during fallback", func() { b.Stop() })
+		add("srv0 recovers", fail(0, false))
+		st = append(st, sleepStep(s, 150*time.Second))
+		add("srv0 answers", resp(0, x.TypeURLA, "valid"))
+	case 2: // three servers, two fallbacks, unwatch on the last one, middle one comes back
+		add("srv0 streams fail", fail(0, true))
+		add("watch r0", func() { a.Start(s.C) })
+		add("watch r1", func() { b.Start(s.C) })
+		add("srv1 streams fail", fail(1, true))
+		add("srv1 breaks", func() { s.W.Server(1).Break() })
+		st = append(st, sleepStep(s, 5*time.Second))
+		add("cancel r0 while srv2 is active", func() { a.Stop() })
+		add("srv1 recovers", fail(1, false))
+		st = append(st, sleepStep(s, 150*time.Second))
+		add("srv1 answers", resp(1, x.TypeURLA, "valid"))
+		add("srv0 recovers", fail(0, false))
+		st = append(st, sleepStep(s, 150*time.Second))
+	case 3: // unwatch while the primary is active but a fallback channel exists is impossible (revert closes it): unwatch + re-watch
+		add("srv0 streams fail", fail(0, true))
+		add("watch r0", func() { a.Start(s.C) })
+		add("watch r1", func() { b.Start(s.C) })
+		add("cancel r0 during fallback", func() { a.Stop() })
+		add("watch r2", func() { c.Start(s.C) })
+		add("srv0 recovers", fail(0, false))
+		st = append(st, sleepStep(s, 150*time.Second))
+		add("cancel r2", func() { c.Stop() })
+		add("srv0 answers", resp(0, x.TypeURLA, "valid"))
+	}
+	return st
+}
+
+func runCaseMulti(t *testing.T, i int, rng *rand.Rand) caseOut {
+	var out caseOut
+	synctest.Test(t, func(t *testing.T) {
+		cfg := x.SimConfig{Servers: 2 + i%4/2, NodeID: fmt.Sprintf("node-%d", i)}
+		opts := x.GenOpts{Names: []string{"r0", "r1", "r2", "r3"}, HoldProb: 0.1, MaxWatchers: 7,
+			StreamFail: true, Simultaneous: true,
+			Weights: map[string]int{"stream-fail": 16, "break": 12, "sleep": 18, "simultaneous": 6, "respond": 26, "watch": 16, "cancel": 16}}
+		steps := 25 + rng.Intn(30)
+		s, err := x.NewSim(cfg)
+		if err != nil {
+			t.Fatalf("xdsclient.New: %v", err)
+		}
+		defer s.Close()
+		pm := x.NewProtoModel(s)
+		g := x.NewGen(s, rng, opts)
+		out.det.Config = cfg
+		do := func(note string, f func()) bool {
+			out.det.Steps = append(out.det.Steps, note)
+			evs := s.Step(note, f)
+			out.steps++
+			pm.Feed(evs)
+			var fs []x.Finding
+			for _, f := range pm.Take() {
+				// only SURPLUS names are C43's business here: a name nobody watches any
+				// more is still requested.  MISSING names after a revert and the other
+				// fallback rules are judged (and partly listed as known findings) by C44.
+				if f.Key == "unwatched-name-still-subscribed-at-quiescence" || f.Key == "request-lists-unwatched-name" {
+					f.Key = "subscription-" + f.Key
+					fs = append(fs, f)
+				}
+			}
+			if len(fs) > 0 {
+				out.findings = fs
+				out.det.Tail = s.W.Tail(90)
+				return false
+			}
+			return true
+		}
+		ok := true
+		for _, p := range multiPrelude(i, s, g) {
+			if ok = do(p.note, p.f); !ok {
+				break
+			}
+		}
+		for k := 0; ok && k < steps; k++ {
+			note, f := g.Next()
+			ok = do(note, f)
+		}
+		if ok {
+			do("final: release all", func() { s.ReleaseAll() })
+		}
+		out.stats = map[string]int{}
+		out.pstats = pm.Stats
+		out.feat = g.Feat
+	})
+	return out
+}
+
+func signatureMulti(o caseOut) string {
+	var bits []string
+	on := func(name string, c bool) {
+		if c {
+			bits = append(bits, name)
+		}
+	}
+	on(fmt.Sprintf("servers=%d", o.det.Config.Servers), true)
+	on("multi-stream", o.pstats["streams"] > 2)
+	on("unsubscribe-all", o.pstats["unsubscribe_all_requests"] > 0)
+	on("restart+version", o.pstats["restart_requests_with_version"] > 0)
+	on("send-failed", o.pstats["sends_failed"] > 0)
+	on("simultaneous", o.feat["simultaneous"] > 0)
+	on("cancel>2", o.feat["cancel"] > 2)
+	sort.Strings(bits)
+	return strings.Join(bits, "+")
+}
+
 func TestVerifC43(t *testing.T) {
 	r := vlib.Start(t, "C43")
 	stop := r.Watchdog(time.Duration(r.N(20, 60)) * time.Minute)
@@ -222,12 +361,34 @@ func TestVerifC43(t *testing.T) {
 			r.Sample(map[string]any{"case": i, "steps": o.det.Steps, "stats": o.stats})
 		}
 	}
+	const famM = "multi"
+	nm := r.N(200, 3000)
+	for i := 0; i < nm; i++ {
+		if !r.Want(famM, i) {
+			continue
+		}
+		rng := r.Rand(famM, i)
+		r.Progress(famM, i, "")
+		o := runCaseMulti(t, i, rng)
+		r.Eval(1)
+		r.Count("multi_steps", int64(o.steps))
+		r.Count("multi_quiescent_surplus_checks", int64(o.pstats["quiescent_surplus_checks"]))
+		r.Count("multi_requests_judged", int64(o.pstats["requests_judged"]))
+		r.Count("multi_streams", int64(o.pstats["streams"]))
+		for _, f := range o.findings {
+			r.Violation(f.Key, famM, i, o.det, "%s", f.Msg)
+		}
+		if o.pstats["quiescent_surplus_checks"] >= 10 && o.pstats["streams"] >= 2 {
+			r.Nontrivial("multi:" + signatureMulti(o))
+		}
+	}
 	r.Finish(vlib.Spec{
 		Level: "fault_enumeration",
 		Rule: "PRNG-generated scripts (30-60 steps after a deterministic prelude rotating over 6 situations) against one management server (every third case with ignore_resource_deletion): watch/cancel of 1-6 names over a SotW-complete type A and a type B, " +
 			"responses (valid, identical, subset, one invalid incl. the very same invalid resource again, undecodable, empty, extra name, bursts), stream breaks before/after the first response, NewStream failures, virtual-time sleeps (0.2-150 s: 15 s expiry, backoff) and watchers that park done; " +
 			"after every step the complete per-watcher callback multiset is compared with the reference cache at exact quiescence. " +
-			"non-trivial = >=3 callbacks judged and >=10 quiescent comparisons; distinct = set of cache situations the case reached (delivered, identical suppressed, rejected, SotW deletion, ignored deletion, expiry, stream failure before/after a response, unsubscribe-all, held done)",
+			"family 'multi' (subscription side only): 2-3 servers with fallback/revert histories (preludes cancel the last watch of a resource while a fallback server is active, then bring the higher-priority server back) - at every quiescent point the last request of each type on EVERY live stream of the authority lists no name that nobody watches, and no request ever lists a name not watched during its step. " +
+			"non-trivial = >=3 callbacks judged and >=10 quiescent comparisons (multi: >=10 surplus checks on >=2 streams); distinct = set of cache situations the case reached (delivered, identical suppressed, rejected, SotW deletion, ignored deletion, expiry, stream failure before/after a response, unsubscribe-all, held done)",
 		Assumptions: []string{
 			"the scripted server never sends a response of a type before it received a request of that type on that stream",
 			"testing/synctest: synctest.Wait() returns only when every goroutine of the client is durably blocked; timers run on virtual time",
